@@ -440,6 +440,9 @@ def date_of_birth_time_zones():
 
 if __name__ == '__main__':
     c = Collector()
+    from native import C18_native
+    c.run('C05.decimal_values_are_written_as_xs_decimal', 'B', C18_native.decimals,
+          bound='the decimal enumeration of C18 (boundary values, exponent forms with positive and negative exponents, seeded random digit strings) re-run here: what the containers write for a Decimal must be an xs:decimal lexical form (no exponent) that reads back as the same value')
     c.run('C05.date_of_birth_time_zones', 'B', date_of_birth_time_zones,
           bound='pm:DateOfBirth of PatientDemographicsCoreData with EVERY time-zone offset of the xsd value space (-14:00..+14:00, 1681 whole minutes) x date / dateTime: write, read, compare, re-write')
     c.run('C05.module_constants', 'F', module_constants, bound='MANDATORY_VALUE_CHECKING')
